@@ -17,7 +17,7 @@ def run(res, tier, seed):
         'the rest is SEARCHED: valgrind on the statistics probes (quick) and an ASan+UBSan build swept over the option matrix (thorough)',
         'command-line exit status / usage text of the cmdline library is not modelled',
     ]
-    tr = C.run_translators(['t8_options'])
+    tr = C.run_translators(['t8_options', 't9_levels'])
     for n, ok, msg in tr:
         res.obligation('translator:' + n, ok, msg[-300:])
         if not ok:
@@ -40,6 +40,21 @@ def run(res, tier, seed):
         if not l.rstrip().endswith('=> ok'):
             res.violation('option:' + l.split()[1], {'what': l, 'replay_cmd': 'build/harness/h_solver options'})
             break
+    # K-levels: the real chooseNumberOfLevels against the model the level-cap theorem is about (all caps, incl. 1 and 2)
+    okm, msgm = C.build_model_driver()
+    okg, msgg = C.build_harness(['h_gridgen'])
+    if okm and okg:
+        import p_C18
+        impl_l, dis_l = p_C18._correspond(res, 'levels', [], tier, seed)
+        if dis_l:
+            res.fail('K-levels', dis_l[:3])
+            d = next((x for x in dis_l if x.get('kind') == 'value'), None)
+            if d:
+                res.violation('levels:' + d['query'], {
+                    'what': 'chooseNumberOfLevels accepts / rejects differently from the model (nr, ntheta, maxLevels as in the query)',
+                    'query': d['query'], 'impl': d['impl'], 'model': d['model'], 'replay_cmd': 'build/harness/h_gridgen levels'})
+    else:
+        res.fail('K-levels-build', (msgm if not okm else '') + (msgg if not okg else ''))
     # statistics probes under valgrind: uninitialised values / invalid reads
     exe = os.path.join(C.BUILD, 'harness', 'h_solver')
     for kind, sig, what in ((0, 'stats-uninitialised-mean-factor', 'with both tolerances disabled the mean residual reduction factor is computed from uninitialised locals'),
